@@ -28,7 +28,7 @@ PROG_NOTE = ("Trusted: TLC; the TLA+ reference semantics as oracle (cross-checke
 CHECKS["C01"] = dict(
     category="model_checking",
     technique="TLA+ source semantics + translation scheme model-checked equal by TLC; every explored program x witness "
-              "assignment replayed into compiler, decoder and Bit Machine",
+              "assignment replayed into compiler, decoder and Bit Machine; implementation traces (hook events of the scope machines / builders, cargo feature verif) validated by TLC against TraceScopes.tla",
     text="TLC enumerates a program family covering the expression forms over a small type universe and, inside the model, "
          "proves book semantics = Simplicity semantics of the translation for every witness assignment; the same behaviours "
          "(program text + expected verdict vector) are replayed against the real pipeline, debug symbols off and on.",
@@ -48,33 +48,33 @@ CHECKS["C03"] = dict(
     note=PROG_NOTE, design="5 (C03)")
 CHECKS["C14"] = dict(
     category="model_checking",
-    technique="TLC invariant DebugNeutral (debug wrapper is behaviour neutral) + replay of debug/non-debug builds on all witness assignments",
+    technique="TLC invariant DebugNeutral (debug wrapper is behaviour neutral) + replay of debug/non-debug builds on all witness assignments; implementation traces (hook events of the scope machines / builders, cargo feature verif) validated by TLC against TraceScopes.tla",
     text="Model and code: debug build and plain build succeed on exactly the same witness assignments, both equal to the source semantics.",
     note=PROG_NOTE + " Marker resolution: every marker CMR found in the debug build must resolve to exactly one predicted call site "
          "(text, kind), every predicted site must have a marker, map_value must reconstruct sample values.", design="5 (C14)")
 
 CHECKS["C04"] = dict(
     category="model_checking",
-    technique="static rules as an executable TLA+ definition (WellFormed) classifying TLC-enumerated near-miss programs; replay of TemplateProgram::new",
+    technique="static rules as an executable TLA+ definition (WellFormed) classifying TLC-enumerated near-miss programs; replay of TemplateProgram::new; implementation traces (hook events of the scope machines / builders, cargo feature verif) validated by TLC against TraceScopes.tla",
     text="TLC enumerates single-slot near misses of six program schemas plus the well-formed families; WellFormed (Static.tla, written "
          "from the book) computes accept/reject; the real front end must classify every text the same way.",
     note=PROG_NOTE + " The static rules are the oracle; where the book is silent (alias redefinition, reserved words as names) no case is generated.",
     design="5 (C04)")
 CHECKS["C08"] = dict(
     category="model_checking",
-    technique="TLC checks the list_fold doubling construction against the reference fold for every bound/length; replay of fold programs on every list length",
+    technique="TLC checks the list_fold doubling construction against the reference fold for every bound/length; replay of fold programs on every list length; implementation traces (hook events of the scope machines / builders, cargo feature verif) validated by TLC against TraceScopes.tla",
     text="Model: ListFoldT (compile.rs construction) = reference left-to-right fold for bounds 2..256(512), every length of the tier, "
          "five order-sensitive / panicking fold functions. Code: same programs and witness lists replayed on the Bit Machine.",
     note=PROG_NOTE, design="5 (C08)")
 CHECKS["C09"] = dict(
     category="model_checking",
-    technique="TLC checks the for_while task-stack construction against the reference loop; replay of loops with every exit iteration",
+    technique="TLC checks the for_while task-stack construction against the reference loop; replay of loops with every exit iteration; implementation traces (hook events of the scope machines / builders, cargo feature verif) validated by TLC against TraceScopes.tla",
     text="Model: ForWhileT (stack W(n+1)=W(n)W(n)adapt, for_while_0, adapt_f) = reference loop (ascending counters, ctx constant, "
          "first Left ends, nothing evaluated after the exit) for widths 1,2,4,8(16). Code: replay on the Bit Machine.",
     note=PROG_NOTE, design="5 (C09)")
 CHECKS["C10"] = dict(
     category="model_checking",
-    technique="TLC-enumerated binding structures; invariant: path lookup of the code-generation scope = lexical scoping; replay with distinct constants per binder",
+    technique="TLC-enumerated binding structures; invariant: path lookup of the code-generation scope = lexical scoping; replay with distinct constants per binder; implementation traces (hook events of the scope machines / builders, cargo feature verif) validated by TLC against TraceScopes.tla (typing-side lookups must return the nearest binding)",
     text="Exhaustive (bounded) arrangements of nested blocks, pattern lets, match arms and calls over two names; the value observed at "
          "each probe must be the one lexical scoping prescribes - in the model (scope/path translation) and in the real compiler.",
     note=PROG_NOTE, design="5 (C10)")
@@ -88,7 +88,7 @@ CHECKS["C05"] = dict(
     note=PROG_NOTE + " Maps omitting a used witness: only `no panic` is required.", design="5 (C05)")
 CHECKS["C12"] = dict(
     category="model_checking",
-    technique="TLA+ rules Params/InstantiateOK + invariant SubstEquivalent (instantiation = literal substitution) checked by TLC; replay of parameters(), instantiate and both programs",
+    technique="TLA+ rules Params/InstantiateOK + invariant SubstEquivalent (instantiation = literal substitution) checked by TLC; replay of parameters(), instantiate and both programs; implementation traces (hook events of the scope machines / builders, cargo feature verif) validated by TLC against TraceScopes.tla",
     text="Programs with 0..4 parameters in main / called / never-called functions; parameters() must equal the model's set; argument maps "
          "exact/extra/missing/re-typed classified by InstantiateOK; instantiated and literally substituted program give the model's "
          "verdict vector.",
